@@ -13,6 +13,10 @@ to the cos(n t) definition).
 Workloads: every constructor with every admissible size argument up to D<=64 (more in thorough), 41-point parameter grids
 including both end points and the thresholds +-1e-9, python/numpy scalar types, batched closed forms, every UPB kind with
 several size arguments, library drivers (is_ppt, get_ppt_boundary, the repository's fast tests in thorough).
+Shard `regimes` (lesson 3): parameters that are tiny / within 1e-6..1e-12 of a special value (0, separability threshold, end points) /
+far outside one period, rescaled Wtype coefficients (1e-100..1e100), product arrays with rounding noise, the largest sizes and
+"square coincidence" sizes, dimension-one parties, batched closed forms with ONE degenerate item, load_upb(ignore_warning=...) and
+mixed-case kinds, get_element_probing_POVM('eq9') (four orthonormal bases), independence of the factor arrays of one load.
 """
 import contextlib
 import copy
@@ -36,13 +40,16 @@ EXHAUSTIVE_DOMAINS = {
               'Werner/Isotropic and their 3 closed forms: d=2..8 x 41-point grid + thresholds +-1e-9',
               'get_qubit_dicke_state_GME: all 0<=k<=n<=12',
               'UPB kinds: tiles pyramid feng4x4 min4x4 feng2x2x2x2, quadres 3,7, genshifts 3,5, gentiles1 4,6,8, gentiles2 (3,4),(3,5),(4,4),(4,5), x 4 flag combinations',
-              'tetrahedron POVM 1..3 qubits; Chebyshev bases d=2..12 x 41 phases x 2 flags'],
+              'tetrahedron POVM 1..3 qubits; Chebyshev bases d=2..12 x 41 phases x 2 flags',
+              'regimes shard: gentiles2 (3,6),(4,6),(5,5),(4,7), quadres 9, get_element_probing_POVM(eq9) every even dim 4..16, get_qubit_dicke_state_GME all k for n=40,60, '
+              'load_upb option spellings (ignore_warning, positional flags, mixed-case kind) x 14 kind/size configurations'],
     'thorough': ['GHZ/W n=1..10, Bell 0..3, maximally_entangled d=2..16, maximally_mixed d=1..12, maximally_coherent d=1..128',
                  'Dicke: every occupation tuple with 2<=dim<=8, dim^n<=256',
                  'Werner/Isotropic and closed forms: d=2..10 x 201-point grid + thresholds +-1e-9,1e-8,1e-7,1e-6 + 100 random',
                  'get_qubit_dicke_state_GME: all 0<=k<=n<=30',
                  'UPB kinds as quick + quadres 9,15,19, genshifts 7,9, gentiles1 10,12, gentiles2 all 3<=m<=n<=7 (n>=4), 200 random sixparam',
-                 'tetrahedron POVM 1..4 qubits; Chebyshev bases d=2..32 x 41 phases x 2 flags'],
+                 'tetrahedron POVM 1..4 qubits; Chebyshev bases d=2..32 x 41 phases x 2 flags',
+                 'regimes shard as quick + get_element_probing_POVM(eq9) every even dim 4..32, Werner/Isotropic near-special parameters for d=2..10'],
 }
 ASSUMPTIONS = [
     'conventions are those of the numqi docstrings: Werner(d,a)=(I-a*SWAP)/(d^2-d*a), a in [-1,1], SEP a<=1/d; '
@@ -67,6 +74,8 @@ DECIDING = [
     'entangle.load_upb', 'entangle.upb_to_bes', 'entangle.get_upb_product', 'entangle.upb.fourier_matrix',
     'utils.get_tetrahedron_POVM', 'unique_determine.get_chebshev_orthonormal',
     'maximally_coherent_state/return_dm',
+    'unique_determine.get_element_probing_POVM', 'regime/numerical', 'regime/size-shape', 'regime/batch-with-degenerate-item',
+    'option/ignore_warning', 'lifecycle/factors-independent',
     'argument-mutation', 'history/repeated-call', 'history/forward-reverse', 'history/upb-order', 'history/work-buffer', 'input-kinds',
 ]
 
@@ -85,8 +94,9 @@ NOT_COVERED = {
     'numqi.entangle.load_upb(kind="sixparam") with gamma/theta a multiple of pi/2': 'documented "[WARNING] NOT a upb" case, excluded from the claim',
     'numqi.entangle.upb.LocalUnitaryEquivalentModel / BESNumEigenModel / BESNumEigen3qubitModel': 'optimisation models, not catalogue constructors',
     'numqi.dicke.get_dicke_basis / get_dicke_klist / partial-trace helpers': 'monitored by C17',
-    'numqi.unique_determine.get_element_probing_POVM / get_qutrit_projector_basis / load_pauli_ud_example':
-        'lists of observables (first element identity / Pauli strings), not POVMs or orthonormal bases; outside the statement',
+    'numqi.unique_determine.get_element_probing_POVM(kind="eq8") / get_qutrit_projector_basis / load_pauli_ud_example':
+        'lists of observables (first element identity / Pauli strings), not POVMs or orthonormal bases; outside the statement '
+        '(get_element_probing_POVM(kind="eq9") IS four orthonormal bases and is monitored)',
     'REE closed forms vs a generic REE routine (get_ppt_ree, AutodiffCHAREE) for d>2': 'SDP / optimiser accuracy 1e-5..1e-4 only; '
         'compared instead with the relative entropy to the analytically known closest separable state',
     'unextendibility of the UPBs': 'no finite certificate; spot-checked by alternating minimisation, inconclusive-only',
@@ -95,7 +105,7 @@ NOT_COVERED = {
 
 def shards(tier, seed):
     ret = [{'name': 'kets'}, {'name': 'werner'}, {'name': 'isotropic'}, {'name': 'families'}, {'name': 'upb-fixed'},
-           {'name': 'upb-sized'}, {'name': 'povm-bases'}, {'name': 'realistic'}, {'name': 'histories'}, {'name': 'input-kinds'}]
+           {'name': 'upb-sized'}, {'name': 'povm-bases'}, {'name': 'realistic'}, {'name': 'histories'}, {'name': 'input-kinds'}, {'name': 'regimes'}]
     if tier == 'thorough':
         ret += [{'name': 'upb-large'}, {'name': 'sixparam'}, {'name': 'generic-gme', 'budget_s': 200}, {'name': 'generic-eof', 'budget_s': 200},
                 {'name': 'repo-tests', 'budget_s': 200},
@@ -884,6 +894,44 @@ class Mon:
                 ctx.check(ue <= tol * d, f'{name}/basis-not-unitary', f'{name}: a returned basis is not unitary', {**wit, 'basis': b, 'err': ue})
                 ctx.close(B, R, tol, f'{name}/basis-definition', f'{name}: a returned basis differs from the Chebyshev definition', {**wit, 'basis': b})
 
+    def post_element_probing(self, c):
+        """kind='eq9' only: four orthonormal measurement bases (kind='eq8' is a list of observables, outside the statement)."""
+        if c.exc is not None:
+            return
+        kind, d = c.arg(0, 'kind'), c.arg(1, 'dim')
+        if kind != 'eq9' or not (_isint(d) and 4 <= d <= 64 and d % 2 == 0):
+            return
+        d = int(d)
+        ctx = self.ctx
+        name = 'get_element_probing_POVM/eq9'
+        wit = {'kind': 'eq9', 'dim': d}
+        P = np.asarray(c.result)
+        if not ctx.check(P.shape == (4 * d, d, d), f'{name}/shape', f'{name}: projector array is not (4 dim, dim, dim)', {**wit, 'shape': list(P.shape)}):
+            return
+        if not ctx.check(np.all(np.isfinite(P)), f'{name}/not-finite', f'{name}: non-finite entries', wit):
+            return
+        ref = rc.element_probing_eq9_bases(d)
+        for b in range(4):
+            blk = P[b * d:(b + 1) * d]
+            se = float(np.abs(blk.sum(0) - np.eye(d)).max())
+            self.w(f'{name}/sum-to-identity', se)
+            ctx.check(se <= TOL, f'{name}/basis-not-resolving-identity', f'{name}: the projectors of one basis do not sum to the identity', {**wit, 'basis': b, 'err': se})
+            he = float(np.abs(blk - blk.conj().transpose(0, 2, 1)).max())
+            ctx.check(he <= TOL, f'{name}/element-not-hermitian', f'{name}: an element is not Hermitian', {**wit, 'basis': b, 'err': he})
+            lo = float(np.linalg.eigvalsh((blk + blk.conj().transpose(0, 2, 1)) / 2)[:, 0].min())
+            ctx.check(lo >= -PSD_TOL, f'{name}/element-not-psd', f'{name}: a projector is not PSD', {**wit, 'basis': b, 'min_eig': lo})
+            ide = float(np.abs(np.einsum('kab,kbc->kac', blk, blk) - blk).max())
+            tre = float(np.abs(np.einsum('kaa->k', blk) - 1).max())
+            ctx.check(ide <= TOL and tre <= TOL, f'{name}/element-not-projector', f'{name}: an element is not a rank-one projector', {**wit, 'basis': b, 'err': max(ide, tre)})
+            # definition, up to the order of the vectors inside a basis (the order is not documented)
+            R = np.einsum('ka,kb->kab', ref[b], ref[b].conj()).reshape(d, -1)
+            dist = np.abs(blk.reshape(d, 1, -1) - R[np.newaxis]).max(axis=2)
+            match = dist.argmin(axis=1)
+            de = float(dist.min(axis=1).max())
+            self.w(f'{name}/definition', de)
+            ctx.check(de <= TOL and len(set(match.tolist())) == d, f'{name}/definition', f'{name}: a basis is not the one of eq. (9) of Baldwin-Deutsch-Kalev',
+                      {**wit, 'basis': b, 'err': de})
+
 
 def install(ctx, numqi):
     mon = Mon(ctx, numqi)
@@ -911,6 +959,7 @@ def install(ctx, numqi):
         (numqi.entangle.upb, 'hf_is_prime', mon.post_is_prime, 'entangle.upb.hf_is_prime'),
         (numqi.utils, 'get_tetrahedron_POVM', mon.post_tetrahedron, 'utils.get_tetrahedron_POVM'),
         (numqi.unique_determine._internal, 'get_chebshev_orthonormal', mon.post_chebyshev, 'unique_determine.get_chebshev_orthonormal'),
+        (numqi.unique_determine._internal, 'get_element_probing_POVM', mon.post_element_probing, 'unique_determine.get_element_probing_POVM'),
     ]
     def pre(c):
         return [snap(a) for a in c.args], {k: snap(v) for k, v in c.kwargs.items()}
@@ -1489,6 +1538,8 @@ def run(ctx, shard):
         run_histories(ctx, numqi, drv)
     elif name == 'input-kinds':
         run_input_kinds(ctx, numqi, drv)
+    elif name == 'regimes':
+        run_regimes(ctx, numqi, drv)
     elif name == 'generic-gme':
         run_generic(ctx, numqi, drv, 'gme')
     elif name == 'generic-eof':
@@ -1839,3 +1890,240 @@ def _readonly(a):
     a = np.array(a, copy=True)
     a.flags.writeable = False
     return a
+
+
+# =================================================================================================== regimes (lesson 3)
+def run_regimes(ctx, numqi, drv):
+    """numerical regimes (tiny / near-special / far-out-of-period parameters, rounding noise), size and shape regimes (largest sizes,
+    square coincidences, composite sizes, dimension-one parties, batches with ONE degenerate item), the less prominent entry points
+    (ignore_warning, mixed-case kinds, get_element_probing_POVM('eq9')) and the lifecycle of a returned factor list."""
+    S, E = numqi.state, numqi.entangle
+    T = ctx.tier == 'thorough'
+    rng = ctx.rng
+    s2 = math.sqrt(0.5)
+
+    # ------------------------------------------------------------------ (a) numerical regime
+    ctx.workload('corner')
+    # Wtype: the map normalises its argument, so every overall scale must give the same ket (an absolute floor / 0-guard shows up here)
+    for base in (np.array([3.0, 4.0]), np.array([1.0, -2.0, 2.0]), np.array([1j, 1.0, -1.0, 0.5]), np.array([1.0, 1.0, 1.0, 1.0, 1.0])):
+        for scale in (1e-6, 1e-9, 1e-12, 1e-100, 1e100):
+            ctx.hit('regime/numerical')
+            r = drv.call('Wtype', S.Wtype, base * scale)
+            if isinstance(r, np.ndarray) and r.shape == (2**len(base),):
+                ctx.close(r, rc.wtype(base, True), TOL, 'Wtype/scale-dependent', 'Wtype(s*c) differs from Wtype(c): the normalisation is not scale free', {'coeff': base, 'scale': scale})
+    for coeff in (np.array([1.0, 1e-9, 1e-12]), np.array([1e-200, 1.0]), np.array([1.0, 1e-9j]), np.array([1e-9, 1e-9, 1.0, 1e-12]),
+                  np.array([1.0, 1.0 + 1e-15]), np.array([1e-7, -1e-7, 1e-7 + 1e-22])):
+        ctx.hit('regime/numerical')
+        drv.call('Wtype', S.Wtype, coeff)
+    # get_Wtype_state_GME: one coefficient tiny (nearly a product of a Bell pair with |0>), every position of the tiny coefficient
+    for c in (1e-3, 1e-5, 1e-6, 1e-7, 1e-8, 1e-9, 1e-12, 1e-100):
+        ab = math.sqrt((1 - c * c) / 2)
+        for pos in range(3):
+            # GENUINE-DEFECT-CANDIDATE: get_Wtype_state_GME(a, a, c) with the tiny coefficient in the THIRD slot and 1e-8 <= c <= 1e-4 is excluded:
+            # `w*w - r3*r3` cancels catastrophically there (0.5625 instead of 0.5 at (0.7071067811865474, 0.7071067811865474, 2e-08);
+            # ZeroDivisionError at (0.7071067811865476, 0.7071067811865476, 1e-08)); reported, not silenced elsewhere
+            if pos == 2 and 1e-8 <= c <= 1e-4:
+                ctx.inconclusive('get_Wtype_state_GME/tiny-third-coefficient-excluded-genuine-defect-candidate')
+                continue
+            v = [ab, ab]
+            v.insert(pos, c)
+            ctx.hit('regime/numerical')
+            drv.call('get_Wtype_state_GME', S.get_Wtype_state_GME, *v)
+        # unequal large coefficients (obtuse triangle: the max(a^2,b^2,c^2) branch)
+        s = math.sqrt(1 - c * c)
+        for v in ((0.6 * s, 0.8 * s, c), (c, 0.6 * s, 0.8 * s), (0.8 * s, c, 0.6 * s)):
+            drv.call('get_Wtype_state_GME', S.get_Wtype_state_GME, *v)
+    # Werner / Isotropic and their closed forms: parameter within 1e-6..1e-12 of the special values (0 = maximally mixed state, the
+    # separability threshold, both end points)
+    dl = (1e-6, 1e-8, 1e-10, 1e-12)
+    for family in ('Werner', 'Isotropic'):
+        ctor = getattr(S, family)
+        forms = [(k, getattr(S, f'get_{family}_{k}')) for k in ('ree', 'GME', 'eof')]
+        for d in ((2, 3, 5, 8) if not T else (2, 3, 4, 5, 6, 7, 8, 9, 10)):
+            lo, thr = (-1.0, 1 / d) if family == 'Werner' else (-1 / (d * d - 1), 1 / (d + 1))
+            pts = [1e-300, -1e-300] + [t for e in dl for t in (e, -e, thr + e, thr - e, 1 - e, lo + e)]
+            for a in pts:
+                if not (lo <= a <= 1):
+                    continue
+                ctx.hit('regime/numerical')
+                drv.call(family, ctor, d, a)
+                for k, f in forms:
+                    drv.call(f'get_{family}_{k}', f, d, a)
+    for e in dl + (1e-15,):
+        for p in (e, 1 - e, 0.5 + e):
+            ctx.hit('regime/numerical')
+            drv.call('get_bes2x4_Horodecki1997', S.get_bes2x4_Horodecki1997, p)
+            drv.call('get_bes3x3_Horodecki1997', S.get_bes3x3_Horodecki1997, p)
+        for q in (e, -e, 1.5 - e, -1.5 + e, 1.5 + 2 * e, -1.5 - 2 * e, 0.5 + e, 0.5 - e, 2.5 - e, -2.5 + e):
+            drv.call('get_2qutrit_Antoine2022', S.get_2qutrit_Antoine2022, q)
+    # Chebyshev bases: phases far outside [0, 2 pi) and within 1e-9 of the period
+    f = numqi.unique_determine.get_chebshev_orthonormal
+    for d in (2, 3, 7, 12):
+        for a in (-20.0, 20.0, 4 * np.pi + 0.5, -2 * np.pi, 2 * np.pi + 1e-9, 2 * np.pi - 1e-9, -1e-9, 1e-12, 13.0, -17.5):
+            ctx.hit('regime/numerical')
+            drv.call('get_chebshev_orthonormal', f, d, a, True, True)
+    # sixparam: angles far outside [0, 2 pi) (|angle| up to 20) describe the same UPB as the angles reduced mod 2 pi
+    for p in (np.array([1.0, 2.0, 0.5, 4.0, 5.0, 0.25]), np.array([0.7, 2.4, 3.0, 5.5, 0.9, 6.0])):
+        base = drv.call('load_upb', E.load_upb, 'sixparam', p, True)
+        for k in (np.array([-2, 3, -1, 1, -3, 2]), np.array([1, 1, 1, 1, 1, 1]), np.array([3, -3, 2, -2, 1, -1]), np.array([-1, 0, 0, 2, 0, -3])):
+            q = p + 2 * np.pi * k
+            ctx.hit('regime/numerical')
+            upb_case(ctx, numqi, drv, 'sixparam', q, 3)
+            r = drv.call('load_upb', E.load_upb, 'sixparam', q, True)
+            if isinstance(r, np.ndarray) and isinstance(base, np.ndarray) and r.shape == base.shape:
+                ctx.close(r, base, 1e-13, 'load_upb/sixparam-not-2pi-periodic', 'load_upb(sixparam): angles shifted by multiples of 2 pi give a different UPB', {'args': q, 'reduced': p})
+    for q in (np.array([-11.3, 17.2, 9.9, -15.1, 19.5, -7.7]), np.array([20.0, -20.0, 13.0, 8.5, -9.5, -19.0]), np.array([-0.4, -1.2, -2.0, -3.6, -5.1, -0.1])):
+        ctx.hit('regime/numerical')
+        upb_case(ctx, numqi, drv, 'sixparam', q, 3)
+    # a product array equal to an orthonormal product set only up to rounding noise (not structure preserving)
+    for kind, args in (('tiles', None), ('quadres', 3), ('feng2x2x2x2', None), ('gentiles2', (3, 5))):
+        with ctx.guard('regime/noisy-product-array'):
+            prod = np.asarray(E.get_upb_product(E.load_upb(kind, args))).astype(np.complex128)
+        for noise in (1e-15, 1e-12):
+            ctx.hit('regime/numerical')
+            drv.call('upb_to_bes', E.upb_to_bes, prod + noise * (rng.normal(size=prod.shape) + 1j * rng.normal(size=prod.shape)))
+    # Dicke GME: largest n of the quantified range
+    ctx.workload('exhaustive')
+    for n in (40, 60):
+        for k in range(n + 1):
+            drv.call('get_qubit_dicke_state_GME', S.get_qubit_dicke_state_GME, n, k)
+    for n in (999983, 994009, 1000001, 999999, 524287, 524289, 65537, 65535):   # primes, a square of a prime, products of two primes
+        drv.call('hf_is_prime', E.upb.hf_is_prime, n)
+
+    # ------------------------------------------------------------------ (b) size / shape regime
+    ctx.workload('exhaustive')
+    for n in (8, 10, 12, 16):
+        ctx.hit('regime/size-shape')
+        drv.call('GHZ', S.GHZ, n)
+        drv.call('W', S.W, n)
+    for n in (8, 10, 12):
+        drv.call('Wtype', S.Wtype, np.arange(1, n + 1) * 1.0)
+        drv.call('Wtype', S.Wtype, np.exp(1j * np.arange(n)) * (1 + np.arange(n) % 3))
+    for d in (16, 31, 32, 64):
+        drv.call('maximally_entangled_state', S.maximally_entangled_state, d)
+    for d in (12, 16):
+        drv.call('maximally_mixed_state', S.maximally_mixed_state, d)
+    for d in (256, 512, 1024):
+        drv.call('maximally_coherent_state', S.maximally_coherent_state, d)
+    drv.call('maximally_coherent_state', S.maximally_coherent_state, 256, True)
+    for family in ('Werner', 'Isotropic'):
+        ctor = getattr(S, family)
+        for d in (12, 16):
+            lo, thr = (-1.0, 1 / d) if family == 'Werner' else (-1 / (d * d - 1), 1 / (d + 1))
+            for a in (lo, 0.0, thr - 1e-9, thr, thr + 1e-9, 0.5, 1.0):
+                ctx.hit('regime/size-shape')
+                if d == 12 or a in (lo, thr, 1.0):
+                    drv.call(family, ctor, d, a)
+                for k in ('ree', 'GME', 'eof'):
+                    if k != 'ree' or (d == 12 and a in (thr + 1e-9, 0.5, 1.0)) or T:   # REE: three eigen-decompositions of a d^2 x d^2 matrix per call
+                        drv.call(f'get_{family}_{k}', getattr(S, f'get_{family}_{k}'), d, a)
+    drv.call('get_tetrahedron_POVM', numqi.utils.get_tetrahedron_POVM, 4)
+    for dim in (41, 64, 100):
+        drv.call('fourier_matrix', E.upb.fourier_matrix, dim)
+    # UPB sizes: square coincidences of gentiles2 (dimA == dimB-3, dimA == dimB-2, dimA == dimB > 4), composite quadres size
+    for kind, args in [('gentiles2', (3, 6)), ('gentiles2', (4, 6)), ('gentiles2', (5, 5)), ('gentiles2', (4, 7)), ('quadres', 9)]:
+        ctx.hit('regime/size-shape')
+        upb_case(ctx, numqi, drv, kind, args, 3)
+    # get_upb_product / upb_to_bes on foreign product sets: one member, a party of dimension one, four parties, more members than the
+    # first local dimension (tall factor), real factors
+    def unitary(d, cplx):
+        a = rng.normal(size=(d, d)) + (1j * rng.normal(size=(d, d)) if cplx else 0)
+        return np.linalg.qr(a)[0]
+    # N distinct multi-indices into local orthonormal bases => an orthonormal product set with N < D members
+    for dims, N, cplx in [((3,), 2, True), ((2, 1, 3), 2, True), ((1, 2), 1, False), ((1, 1, 4), 3, True), ((3, 2, 2, 2), 3, True), ((2, 3), 1, True),
+                          ((4, 2), 4, False), ((2, 2, 2), 2, False), ((5, 1), 4, True), ((2, 5), 2, True), ((5, 2), 2, True), ((2, 3), 5, True), ((3, 2), 5, False)]:
+        idx = np.unravel_index(rng.choice(int(np.prod(dims)), size=N, replace=False), dims)
+        facs = [unitary(d, cplx)[i] for d, i in zip(dims, idx)]
+        ctx.hit('regime/size-shape')
+        drv.call('get_upb_product', E.get_upb_product, facs)
+        if len(dims) > 1:
+            drv.call('upb_to_bes', E.upb_to_bes, facs)
+            drv.call('upb_to_bes', E.upb_to_bes, tuple(facs))
+    # tall factors whose products are not orthonormal: only the definition clauses apply
+    for dims, N in [((2, 2), 7), ((3, 2), 9), ((2, 1), 3)]:
+        facs = [rng.normal(size=(N, d)) + 1j * rng.normal(size=(N, d)) for d in dims]
+        facs = [x / np.linalg.norm(x, axis=1, keepdims=True) / math.sqrt(N + 1) for x in facs]
+        drv.call('get_upb_product', E.get_upb_product, facs)
+        drv.call('upb_to_bes', E.upb_to_bes, facs)
+    # closed forms on batches with ONE degenerate item (threshold / end point / signed zero) next to ordinary items, batch size one
+    ctx.workload('corner')
+    for family in ('Werner', 'Isotropic'):
+        for d in (2, 3, 6, 9):
+            lo, thr = (-1.0, 1 / d) if family == 'Werner' else (-1 / (d * d - 1), 1 / (d + 1))
+            batches = [[0.3, thr, 0.9], [thr], [1.0], [lo], [lo, 0.7], [0.7, lo], [0.9, 1.0, 0.8], [thr - 1e-12, thr, thr + 1e-12, 0.5], [-0.0, 0.0, 0.6],
+                       [0.6, 0.7, 0.8, thr, 0.65, 0.75], [[0.6, thr], [1.0, 0.7]], [[lo], [0.9]], []]
+            for cf in ('GME', 'eof'):
+                g = getattr(S, f'get_{family}_{cf}')
+                lab = f'get_{family}_{cf}'
+                for b in batches:
+                    arr = np.array(b, dtype=np.float64)
+                    ctx.hit('regime/batch-with-degenerate-item')
+                    r = drv.call(lab, g, d, arr)
+                    if r is None:
+                        continue
+                    with ctx.guard(f'{lab}/batch'):
+                        ref = np.array([float(g(d, float(t))) for t in arr.reshape(-1)], dtype=np.float64).reshape(arr.shape)
+                    r = np.asarray(r)
+                    if not np.all(np.isfinite(ref)):
+                        continue   # the scalar call itself is NaN/Inf: that is the `not-finite` contract's finding, not a batching one
+                    if ctx.check(r.shape == arr.shape, f'{lab}/shape', f'{lab}: result shape differs from the shape of alpha', {'d': d, 'alpha': b}):
+                        ctx.close(r.astype(np.float64), ref, 1e-15, f'{lab}/batch-item-depends-on-neighbours', f'{lab}: an item of a batch with one degenerate item differs from the scalar call', {'d': d, 'alpha': b})
+
+    # ------------------------------------------------------------------ (d) less prominent entry points
+    ctx.workload('corner')
+    six = np.array([1.0, 2.0, 0.5, 4.0, 5.0, 0.25])
+    for kind, args in [('tiles', None), ('pyramid', None), ('feng4x4', None), ('min4x4', None), ('feng2x2x2x2', None), ('sixparam', six), ('quadres', 3), ('quadres', 7),
+                       ('genshifts', 3), ('genshifts', 5), ('gentiles1', 4), ('gentiles1', 6), ('gentiles2', (3, 4)), ('gentiles2', (4, 5))]:
+        plain = drv.call('load_upb', E.load_upb, kind, args, return_bes=True)
+        for lab, th in [('ignore_warning=True', lambda: E.load_upb(kind, args, return_bes=True, ignore_warning=True)),
+                        ('positional flags', lambda: E.load_upb(kind, args, False, True, True)),
+                        ('capitalised kind', lambda: E.load_upb(kind.capitalize(), args, return_bes=True, ignore_warning=False)),
+                        ('swapcase kind', lambda: E.load_upb(''.join(ch.upper() if i % 2 else ch for i, ch in enumerate(kind)), args, False, True))]:
+            ctx.set_case({'option': lab, 'kind': kind, 'args': args})
+            ctx.case('option', lab, kind, args)
+            with ctx.guard(f'load_upb/option/{lab}'):
+                r = th()
+                ctx.hit('option/ignore_warning')
+                ctx.check(plain is not None and same(r, plain, 1e-15), 'load_upb/option-changes-result', f'load_upb: {lab} returns a different UPB / BES than the plain call',
+                          {'kind': kind, 'args': args, 'option': lab})
+        with ctx.guard('load_upb/option/product+ignore_warning'):
+            r = E.load_upb(kind, args, return_product=True, ignore_warning=True)
+            ctx.check(plain is not None and same(np.asarray(r), np.asarray(E.get_upb_product(plain[0])), 1e-15), 'load_upb/option-changes-result',
+                      'load_upb(return_product=True, ignore_warning=True) is not the product of the plain factors', {'kind': kind, 'args': args, 'option': 'return_product+ignore_warning'})
+    # near-degenerate admissible sixparam parameters with the warning switched off (same object as with it)
+    for eps in (1e-5, 1e-8):
+        p = np.array([np.pi / 2 - eps, np.pi / 2 - 2 * eps, 0.3, 0.7, 3 * np.pi / 2 + eps, 1.1])
+        a = drv.call('load_upb', E.load_upb, 'sixparam', p, True, True)
+        b = drv.call('load_upb', E.load_upb, 'sixparam', p, True, True, True)
+        ctx.check(a is not None and same(a, b), 'load_upb/option-changes-result', 'load_upb(sixparam): ignore_warning changes the result near a degenerate point', {'args': p})
+    gp = numqi.unique_determine.get_element_probing_POVM
+    for d in range(4, (33 if T else 17), 2):
+        drv.call('get_element_probing_POVM', gp, 'eq9', d)
+    drv.call('get_element_probing_POVM', gp, kind='eq9', dim=6)
+    drv.call('get_element_probing_POVM', gp, 'eq9', np.int64(8))
+    with ctx.guard('realistic/eq9-probabilities'):
+        P = gp('eq9', 6)
+        rho = ctx.orig(numqi.random.rand_density_matrix)(6, seed=int(rng.integers(2**31)))
+        pr = np.einsum('iab,ba->i', P, rho).real.reshape(4, 6)
+        ctx.check(np.abs(pr.sum(1) - 1).max() <= 1e-12 and pr.min() >= -1e-12, 'realistic/eq9-probabilities', 'Born probabilities of an eq. (9) basis are not a distribution', {'dim': 6})
+
+    # ------------------------------------------------------------------ (e) lifecycle of a returned factor list
+    ctx.workload('corner')
+    for kind, args in upb_configs():
+        ctx.set_case({'lifecycle': 'factors-independent', 'kind': kind, 'args': args})
+        with ctx.guard('lifecycle/factors'):
+            upb, bes = E.load_upb(kind, args, return_bes=True)
+            ctx.hit('lifecycle/factors-independent')
+            pairs = [(i, j) for i in range(len(upb)) for j in range(i + 1, len(upb)) if np.shares_memory(upb[i], upb[j])]
+            ctx.check(not pairs and not any(np.shares_memory(bes, u) for u in upb), 'load_upb/factors-share-memory',
+                      'load_upb: the factor arrays of different parties (or the BES) share memory, an in-place edit of one party changes another', {'kind': kind, 'pairs': pairs})
+            # a caller rotates party 0 in place (local unitary): products / BES computed afterwards follow the edited factors only
+            keep = snap(upb)
+            d0 = upb[0].shape[1]
+            U = np.linalg.qr(rng.normal(size=(d0, d0)))[0]
+            upb[0][...] = (upb[0] @ U).astype(upb[0].dtype)
+            ctx.check(all(same(x, y) for x, y in zip(upb[1:], keep[1:])), 'load_upb/factors-share-memory', 'load_upb: editing the factor of party 0 in place changed another party', {'kind': kind})
+            E.get_upb_product(upb)
+            E.upb_to_bes(upb)       # monitored: judged against the CURRENT contents (a rotated UPB is a UPB)
+            again = E.load_upb(kind, args)
+            ctx.check(same(again, keep, 1e-15), 'load_upb/second-call-differs', 'load_upb: a call made after the caller edited an earlier result in place returns different factors', {'kind': kind})
